@@ -250,9 +250,10 @@ func c19Generate(g *srcGen) string {
 		t := []string{"div", "p", "section", "ul", "h1", "span", "b", "a", "pre", "script", "style", "table"}[g.r.Intn(12)]
 		switch t {
 		case "script":
-			return "<script>\n  if (a < b && c > d) { x = \"</div>\"; }\n</script>"
+			// raw text is never escaped, whether the author wrote it on lines of its own or on the line of the tags
+			return []string{"<script>\n  if (a < b && c > d) { x = \"</div>\"; }\n</script>", "<script>if (a < b && c > d) { go(); }</script>", "<script>items.forEach(i => init(i));</script>", "<script>lucide.createIcons();</script>"}[g.r.Intn(4)]
 		case "style":
-			return "<style>\n  a > b { color: red; }\n</style>"
+			return []string{"<style>\n  a > b { color: red; }\n</style>", "<style>ul > li { margin: 0 }</style>", "<style>a{b:c}</style>"}[g.r.Intn(3)]
 		case "pre":
 			return "<pre" + g.c19Attrs() + ">" + []string{"", "\n", "\n\n", "  "}[g.r.Intn(4)] + "  keep   this\n   {{ a < b }} &lt;tag&gt; <b>bold</b>\n</pre>"
 		case "table":
@@ -324,6 +325,9 @@ func runC19(r *Run, replay *Case) {
 	for _, dt := range c19Doctypes {
 		r.Add(c19Eval("doctype", dt+"\n<html><head><title>t</title></head><body><p>x</p></body></html>"))
 		r.Add(c19Eval("doctype", "---\ntitle: T\n---\n"+dt+"\n<html>\n<head></head>\n<body><p>x</p></body>\n</html>\n"))
+	}
+	for _, raw := range []string{"<script>if (a < b && c > d) { go(); }</script>", "<div><script>items.forEach(i => init(i));</script></div>", "<style>ul > li { margin: 0 }</style>", "<script>x = 1 & 2;</script><p>t</p>", "<script>  padded <b>  </script>"} {
+		r.Add(c19Eval("raw-one-line", raw))
 	}
 	for _, pre := range []string{"<pre>\n\nfirst</pre>", "<pre>\nfirst</pre>", "<pre>first\n\n</pre>", "<div><pre>\n\n  a\n   b\n</pre></div>", "<pre>\n\n\nthree</pre>", "<pre><b>\nx</b></pre>"} {
 		r.Add(c19Eval("pre", pre))
